@@ -368,12 +368,12 @@ Definition write_vtt_c (d : vdoc) (style_order region_order : list str) : res st
     (* s.Metadata != nil && s.Metadata.WebVTTTimestampMap != nil *)
     do ts <- (if is_some (vd_tsmap d) then do m <- deref (vd_tsmap d) 483; Ok ([10] ++ tsmap_string m) else Ok []);
     do styles <- styles_c d (ssort style_order);
-    let rids := ssort (map (fun k => match aget k (vd_regions d) with Some rg => rg_id rg | None => k end) region_order) in
-    do regs <- regions_bytes_c d rids;
+    (* the keys of s.Regions with a non-nil value, sorted; the value is taken under the key (webvtt.go:511-525) *)
+    do regs <- regions_bytes_c d (ssort region_order);
     do items <- vitems_bytes_c 0 (vd_items d);
     let c := p_webvtt ++ ts ++ [10;10] ++
              (match styles with [] => [] | _ => p_style ++ [10] ++ join [10] styles ++ [10;10] end) ++
-             regs ++ (match vd_regions d with [] => [] | _ => [10] end) ++ items in
+             regs ++ (match region_order with [] => [] | _ => [10] end) ++ items in
     slice_to_pred c 642.
 
 (* Subtitles.Items is a []*Item whose elements may be nil: WriteToWebVTT starts with s.Items = nonNilItems(s.Items)
